@@ -178,7 +178,7 @@ pub fn run(ctx: &mut Ctx) {
             ctx.class("msg_empty");
         }
         let msg = p.bytes(mlen);
-        let k = if i % 7 == 0 { r2::curve().n.clone() - 1u32 - BigUint::from(i % 3) } else if i % 11 == 3 { BigUint::from(1 + i % 4) } else if i % 11 == 5 { sparse_scalar(&mut p, 1 + (i / 11) % 14) } else { rand_scalar(&mut p, &c.n) };
+        let k = if i % 7 == 0 { r2::curve().n.clone() - 1u32 - BigUint::from(i % 3) } else if i % 11 == 3 { BigUint::from(1 + i % 4) } else if i % 11 == 5 { sparse_scalar(&mut p, 1 + (i / 11) % 14) } else if i % 11 == 8 { run_scalar(&mut p, &c.n) } else { rand_scalar(&mut p, &c.n) };
         let how = i / 3;
         match i % 3 {
             0 => fixed_case_how(ctx, &d, id_opt, &id_str, &msg, &k, "sweep", how),
